@@ -665,6 +665,41 @@ Locate(S, a, r) ==
                /\ BallAt(K(S), NN(S), VIds(S), "PLManifoldStrict") /\ GeometricOrientationOK(S) /\ EmbeddedQ(S)
   IN  \A i \in DOMAIN r.qs : LocateOne(S, valid, a.order, r.qs[i])
 
+\* ---- Bowyer-Watson building blocks (core::algorithms::locate::find_conflict_region / extract_cavity_boundary) ----
+\* MECHANISM, not a listed property (a mismatch is model drift): the conflict region is the closure, from the start
+\* cell, of the cells whose circumsphere has the query inside OR ON it, grown through neighbour pointers; the cavity
+\* boundary is the set of facets of region cells whose neighbour is not in the region.
+RECURSIVE GrowRegion(_, _, _)
+GrowRegion(S, q, R) ==
+  LET inC(c) == InSphere(Pts(Pos(S), c.vs), q) >= 0
+      add == {d \in CRecs(S) : d.id \notin R /\ inC(d) /\ \E c \in CRecs(S) : c.id \in R /\ d.id \in Range(c.nb)}
+  IN  IF add = {} THEN R ELSE GrowRegion(S, q, R \cup {d.id : d \in add})
+
+ConflictOne(S, valid, item) ==
+  LET q == item.q
+      st == CRec(S, item.start)
+      startIn == InSphere(Pts(Pos(S), st.vs), q) >= 0
+      R == IF startIn THEN GrowRegion(S, q, {item.start}) ELSE {}
+      got == Range(item.cells)
+      \* boundary facets as (cell, vertex set)
+      wantF == {<<c.id, CellSet(c) \ {c.vs[i]}>> : <<c, i>> \in
+                 {ci \in CRecs(S) \X (1..(S.D + 1)) : ci[1].id \in got /\ ci[1].nb[ci[2]] \notin got}}
+      gotF  == {<<item.facets[k].cell, Range(item.facets[k].vs)>> : k \in DOMAIN item.facets}
+  IN
+  /\ Chk("C19.panic in conflict region", item.kind # "Panic")
+  /\ (valid /\ item.kind = "Ok" =>
+        /\ Chk("MODEL.conflict region is not the in-or-on-sphere closure from the start cell", got = R)
+        /\ Chk("MODEL.conflict region lists a cell twice", Cardinality(got) = Len(item.cells))
+        /\ Chk("MODEL.cavity boundary is not the boundary of the region", gotF = wantF /\ Cardinality(gotF) = Len(item.facets))
+        \* Bowyer-Watson completeness on a Delaunay complex: every cell strictly in conflict is in the region
+        /\ Chk("MODEL.conflict region misses a cell whose circumsphere strictly contains the point",
+               NoStrictlyInside(S) => \A c \in CRecs(S) : InSphere(Pts(Pos(S), c.vs), q) > 0 => c.id \in got))
+
+Conflict(S, r) ==
+  LET valid == Level1Q(S) /\ Level2Q(S) /\ Len(S.cells) > 0 /\ PertSet(S) = {} /\ ScaleOf(S) = 0
+               /\ BallAt(K(S), NN(S), VIds(S), "PLManifoldStrict") /\ GeometricOrientationOK(S) /\ EmbeddedQ(S)
+  IN  \A i \in DOMAIN r.qs : ConflictOne(S, valid, r.qs[i])
+
 \* ---- C11 : convex hull -------------------------------------------------------
 \* H = [facets (sequence of vertex-id sets, in the hull's own order), at (Obs at creation)]
 HullCreateOK(S, r) ==
